@@ -11,6 +11,20 @@ Theorem C12_jacobi_inverse : forall ms qs na, jac_ok ms qs na ->
 Proof. exact jacobi_roundtrip. Qed.
 Print Assumptions C12_jacobi_inverse.
 
+(* the split with NO active particle (N_active = 0: the library produces it when the only active particle is removed).
+   Particle 0 is the reference body of the Jacobi coordinates whatever the flag says: the routines behave exactly as for
+   N_active = 1 (for every arithmetic: the model's na - 1 is the C code's loop bound; /repo e83f542 made the
+   back-transformations agree with the forward one here), hence the round trip and the centre-of-mass slot *)
+Theorem C12_jacobi_no_active_particle : forall (T : Type) (N : Num T) ms qs js mtot,
+  jac_fwd N ms qs 0 = jac_fwd N ms qs 1 /\ jac_inv N ms js mtot 0 = jac_inv N ms js mtot 1.
+Proof. intros T N ms qs js mtot. exact (jacobi_no_active_same N ms qs js mtot). Qed.
+Print Assumptions C12_jacobi_no_active_particle.
+Theorem C12_jacobi_inverse_no_active_particle : forall ms qs, jac_ok ms qs 1 ->
+  jac_inv RNum ms (fst (jac_fwd RNum ms qs 0)) (snd (jac_fwd RNum ms qs 0)) 0 = qs /\
+  hd 0 (fst (jac_fwd RNum ms qs 0)) = hd 0 qs.
+Proof. exact jacobi_no_active. Qed.
+Print Assumptions C12_jacobi_inverse_no_active_particle.
+
 Theorem C12_jacobi_slot0_is_com : forall ms qs na, jac_ok ms qs na ->
   hd 0 (fst (jac_fwd RNum ms qs na)) = COM ms qs na /\
   snd (jac_fwd RNum ms qs na) = Msum (firstn na ms).
